@@ -353,6 +353,9 @@ func (r *Runner) mergeInto(a, b *State) bool {
 		}
 		okAll := true
 		nr := callRec{valid: Ite(g, validOf(ra), validOf(rb))}
+		if ra.post == rb.post {
+			nr.post = ra.post // the same call (made before the branches split): the same post-state snapshot
+		}
 		for i := range ra.args {
 			mv, ok := mergeVal(g, ra.args[i], rb.args[i])
 			if !ok {
